@@ -14,6 +14,7 @@ import Pxv.Driver.Life
 import Pxv.Driver.Rules
 import Pxv.Driver.Errors
 import Pxv.Driver.Router
+import Pxv.Driver.Bind
 open Pxv.Driver
 
 def main (args : List String) : IO UInt32 := do
@@ -34,4 +35,5 @@ def main (args : List String) : IO UInt32 := do
   | ["rules"] => serve Pxv.Rules.handle; return 0
   | ["errors"] => serve Pxv.Err.handle; return 0
   | ["router"] => serve Pxv.Router.handle; return 0
+  | ["bind"] => serve Pxv.Bind.handle; return 0
   | _ => IO.eprintln "usage: pxmodel <model>"; return 2
